@@ -1,5 +1,7 @@
 package main
 
+import "fmt"
+
 func init() { props["C09"] = checkC09 }
 
 // documented well-formedness atoms of coin.Transaction.verify (shared with C10/C01)
@@ -60,5 +62,7 @@ func checkC09(r *Run) {
 	// R5: the transaction's generated codec is the reference codec of its type (decode accepts exactly what
 	// encode can produce: same field order, same length limits) — the rule set of C21 on this one type
 	n, _, _ := codecObligations(r, "C09-R5", func(t string) bool { return t == "coin.Transaction" })
+	nParts, _, _ := codecObligations(r, "C09-R5", func(t string) bool { return t == "coin.TransactionInputs" || t == "coin.TransactionOutputs" })
+	r.Check("C09-R5", "the generated codecs of the two parts hashed into the inner hash were found and validated", "", nParts == 2, fmt.Sprint(nParts))
 	r.Check("C09-R5", "the generated codec of coin.Transaction was found and validated against its type", "", n == 1, "")
 }
